@@ -298,6 +298,12 @@ class C06(Property):
                 ps.remove("0")
             yield {"op": "number", "instances": [{"p": p, "n": rng.choice([1, 2, 3, 10, 11, 12, 16])} for p in ps], "ports": rng.choice([1, 1, 2]),
                    "oseed": rng.randrange(1 << 30)}
+        # ---- numbering after LoopCombinator.restore (recovery resumes instance p at iteration k) ----
+        for _ in range(80 if wide else 20):
+            k = rng.randint(1, 4)
+            ps = rng.sample(PREFIXES[1:], k)
+            yield {"op": "numrestore", "instances": [{"p": p, "resume": rng.choice([None, 0, 1, 9, 10, 11]), "n": rng.choice([1, 2, 3, 11])} for p in ps],
+                   "restore_at": rng.choice(["start", "start", "middle"]), "oseed": rng.randrange(1 << 30)}
         # ---- the whole loop network run by the real executor (scatter instances around the loop, different counts) ----
         for i in range(36 if wide else 10):
             k = rng.randint(1, 4)
@@ -498,6 +504,60 @@ class C06(Property):
         self._lines.append("number " + " ".join(joins))
         self._expect.append((" ".join(outs) or "-", case))
         ctx.case({"case": case, "joins": joins[:8], "outs": outs[:8]}, ("number", tuple(joins)), "number")
+
+    # --------------------------------------------------------------------------------------------
+    async def _numrestore(self, ctx: Ctx, context, case: dict) -> None:
+        """real LoopCombinator (one port): `restore({port: (p, p.k)})` for the instances that resume at iteration k, then causal
+        arrivals: a resumed instance sends the back-edge token p.k, p.(k+1), …; a fresh one sends p, p.0, …"""
+        self._n += 1
+        rng = random.Random(case["oseed"])
+        wf = sd.new_workflow(context, f"c06r-{self._n}")
+        comb = LoopCombinator(name="lc", workflow=wf)
+        comb.add_item("x")
+        pairs = {f"port{i}": (inst["p"], f"{inst['p']}.{inst['resume']}") for i, inst in enumerate(case["instances"]) if inst["resume"] is not None}
+        pending = {inst["p"]: ([inst["p"]] if inst["resume"] is None else [f"{inst['p']}.{inst['resume']}"]) + [None] * (inst["n"] - 1)
+                   for inst in case["instances"]}
+        fresh_first = [inst["p"] for inst in case["instances"] if inst["resume"] is None]
+        produced = {inst["p"]: [] for inst in case["instances"]}
+        words, outs = [], []
+        total = sum(len(v) for v in pending.values())
+        at = 0 if case["restore_at"] == "start" or not fresh_first else rng.randint(0, max(0, min(2, total - 1)))
+        step_no, restored = 0, False
+        while any(pending.values()) or not restored:
+            if not restored and step_no >= at:
+                if pairs:
+                    await comb.restore(dict(pairs))
+                    words.append("r:" + ",".join(f"{a}:{b}" for a, b in pairs.values()))
+                restored = True
+                continue
+            # before the restore only fresh instances may move (a resumed instance has nothing in flight yet)
+            movable = [q for q, v in pending.items() if v and (restored or q in fresh_first)]
+            if not movable:
+                at = step_no
+                continue
+            p = rng.choice(movable)
+            nxt = pending[p].pop(0)
+            tag = nxt if nxt is not None else produced[p][-1]
+            emitted = []
+            async for schema in comb.combine("x", Token(value=tag, tag=tag)):
+                emitted.append(schema["x"]["token"].tag)
+            if len(emitted) != 1:
+                ctx.fail("number:emissions", f"arrival of {tag} produced {len(emitted)} combinations", case)
+                return
+            words.append(tag)
+            outs.append(emitted[0])
+            produced[p].append(emitted[0])
+            step_no += 1
+        for inst in case["instances"]:
+            first = 0 if inst["resume"] is None else inst["resume"] + 1
+            exp = [f"{inst['p']}.{k}" for k in range(first, first + inst["n"])]
+            if produced[inst["p"]] != exp:
+                ctx.fail("number:after-restore:wrong-tags", f"instance {inst['p']} (resume {inst['resume']}): iterations tagged {produced[inst['p']]}, "
+                                                            f"expected {exp}", case)
+        exp_line = (" ".join(outs) or "-", case)
+        self._lines.append("number " + " ".join(words))
+        self._expect.append(exp_line)
+        ctx.case({"case": case, "events": words[:10], "outs": outs[:10]}, ("numrestore", tuple(words)), "numrestore")
 
     # --------------------------------------------------------------------------------------------
     async def _network(self, ctx: Ctx, context, case: dict) -> None:
